@@ -39,6 +39,20 @@ def gen_script(rng, tier):
     return '\n'.join(L) + '\n'
 
 
+def gen_spread_script(rng, tier):
+    """Many keys and a small blob: dozens of blob switches happen under the clients, every closed blob takes its place
+    in the filter tree (more than one level of it) while reads go on; every key is read at quiescence."""
+    keys = rng.choice([20, 50, 120])
+    L = ['cfg K=4 dup=1 group=%d bloom=none init=eager runtime=%s maxrec=%d' % (rng.choice([2, 8]), rng.choice(['mt', 'mt', 'ct']), rng.choice([5, 7, 12])), 'open', 'sleep 210']
+    L.append('par tasks=%d ops=%d keys=%d seed=%d kinds=%s base=1000' % (rng.choice([8, 16, 32]), rng.choice([10, 20]), keys, rng.randrange(1, 10**6), rng.choice(['W', 'WWR', 'WWRD', 'WWRM'])))
+    L.append('quiesce')
+    qs = []
+    for i in range(keys):
+        qs += ['R %08x' % (i + 1), 'RD %08x' % (i + 1)]
+    L += qs + ['counts', 'close', 'open'] + qs
+    return '\n'.join(L) + '\n'
+
+
 def gen_lock_script(rng, tier):
     """Default mode (duplicates disallowed: the duplicate check re-enters the storage lock), many clients on the
     multi-thread runtime, one operation in six a storage-lock WRITER (close / force_update / free_excess): no
@@ -65,7 +79,7 @@ def gen_delete_storm_script(rng):
 
 def gen(tier, rng):
     n = 60 if tier == 'quick' else 800
-    return [('conc%05d' % i, gen_script(rng, tier)) for i in range(n)] + [('lock%05d' % i, gen_lock_script(rng, tier)) for i in range(n // 6)] + [('storm%05d' % i, gen_delete_storm_script(rng)) for i in range(max(2, n // 30))]
+    return [('conc%05d' % i, gen_script(rng, tier)) for i in range(n)] + [('lock%05d' % i, gen_lock_script(rng, tier)) for i in range(n // 6)] + [('spread%05d' % i, gen_spread_script(rng, tier)) for i in range(n // 6)] + [('storm%05d' % i, gen_delete_storm_script(rng)) for i in range(max(2, n // 30))]
 
 
 def parse_par(o):
